@@ -9,8 +9,10 @@ package registry
 //@   guarantee registryLk [append-only] {C04,C20} forall k datatransfer.TypeIdentifier :: old(has(self.entries, k)) ==> has(self.entries, k) && self.entries[k] == old(self.entries[k]) -- a registered processor is never replaced or removed
 
 //@ func (*registry.Registry).Processor {C04,C20}
+//@   acquires {C20} Registry.registryLk
 //@   reads
 //@ func (*registry.Registry).Register {C04,C20}
+//@   acquires {C20} Registry.registryLk
 //@   modifies r.entries
 //@   guarantee [registers-only-this] forall k datatransfer.TypeIdentifier :: has(self.entries, k) && !old(has(self.entries, k)) ==> k == identifier && self.entries[k] == processor
 //@   ensures [no-effects] untouched
